@@ -195,6 +195,9 @@ func genC03Group(r *simrt.RNG) *Case {
 		if len(input) > 600 {
 			input = input[:600]
 		}
+		if fmtOf(reader) == fmtOf(same) && r.Bool() {
+			reader = same // the very same reader configuration several times over
+		}
 		g.Plans = append(g.Plans, C03Plan{Reader: reader, Input: input, Delivery: simio.NoFault([]string{"all", "uniform", "one"}[r.Intn(3)], r.Uint64())})
 	}
 	return &Case{Prop: "C03", Kind: "group", Plan: marshalPlan(g),
